@@ -536,3 +536,175 @@ _reg_4 = register
 def register(R):  # noqa: F811
     _reg_4(R)
     register_is_sorted(R)
+
+
+# ===========================================================================
+# base.py: get_dsu (pointer-jumping component labelling), checker.py: is_single_root
+#
+# The table is read as the FUNCTIONAL GRAPH e on its rows:  e(i) = the row the code's id lookup yields for the parent
+# id of row i (the last row carrying that id; row i's own id when pid[i] == -1, so a row without parent points to
+# itself when ids are distinct).  Nothing but "every parent id names a row" is required: forests, tables with
+# cycles, self loops and duplicate ids are all inside the domain.
+#
+# Ghost symbols (global, NEVER constrained globally: a clause that mentions them is proved for every interpretation):
+#   comp18   an arbitrary labelling of the rows;  "constant along edges" (comp18(e(i)) == comp18(i)) is always an explicit
+#            hypothesis of the clause.  Connectivity is the finest equivalence every such labelling respects.
+#   dp18     a depth witness; "the table is acyclic" is the explicit hypothesis FH (depth decreases strictly along e).
+BASE = "swcgeom/core/swc_utils/base.py"
+_I = z3.IntSort()
+comp18 = z3.Function("comp18", _I, _I)
+dp18 = z3.Function("dp18", _I, _I)
+
+
+def lastrow(E, ID, n):
+    """ghost f with f(k) = the last row whose id is k, for every id k that occurs (what dict(zip(ids, range(n))) maps k to)"""
+    key = ("lastrow18", ID.get_id(), n.get_id())
+    hit = E.ghost.get(key)
+    if hit is None:
+        f = z3.Function(fresh_name("lastrow"), _I, _I)
+        j = z3.Int(fresh_name("j"))
+        r = f(z3.Select(ID, j))
+        E.assume(z3.ForAll([j], z3.Implies(z3.And(j >= 0, j < n), z3.And(r >= j, r < n, z3.Select(ID, r) == z3.Select(ID, j)))))
+        E.assumptions.add("ghost definition: lastrow(k) = the last row whose id is k (exists for every id that occurs)")
+        hit = E.ghost[key] = (f, ID, n)  # the terms are kept alive: z3 reuses the ids of freed terms
+    return hit[0]
+
+
+class Table18:
+    """formulas over the (id, pid) columns of a frame"""
+
+    def __init__(self, E, df):
+        self.ID, self.PID, self.n = df.cols["id"].arr, df.cols["pid"].arr, zint(df.n)
+        self.E = E
+
+    def R(self, t):
+        return z3.And(t >= 0, t < self.n)
+
+    def key(self, i):
+        p = z3.Select(self.PID, i)
+        return z3.If(p == -1, z3.Select(self.ID, i), p)
+
+    def e(self, i):
+        return lastrow(self.E, self.ID, self.n)(self.key(i))
+
+    def parents_exist(self):
+        i, j = z3.Int("i18"), z3.Int("j18")
+        p = z3.Select(self.PID, i)
+        return z3.ForAll([i], z3.Implies(z3.And(self.R(i), p != -1), z3.Exists([j], z3.And(self.R(j), z3.Select(self.ID, j) == p))))
+
+    def einv(self, c):
+        """the labelling c is constant along every edge"""
+        i = z3.Int("i18")
+        return z3.ForAll([i], z3.Implies(self.R(i), c(self.e(i)) == c(i)))
+
+    def forest(self):
+        """FH: dp18 is a depth witness (strictly smaller at the parent row), i.e. the table has no cycle but self loops"""
+        i = z3.Int("i18")
+        return z3.ForAll([i], z3.Implies(self.R(i), z3.And(dp18(i) >= 0, z3.Implies(self.e(i) != i, dp18(self.e(i)) < dp18(i)))))
+
+    def roots_label_themselves(self, c):
+        i = z3.Int("i18")
+        return z3.ForAll([i], z3.Implies(z3.And(self.R(i), self.e(i) == i), c(i) == i))
+
+
+def register_get_dsu(R):
+    def setup(S):
+        df = S.dframe(SWC_COLS)
+        df.frozen = True
+        return dict(df=df, names=None)
+
+    def pre_parents(E, v, o):
+        return Table18(E, v["df"]).parents_exist()
+
+    def edges_resolve(E, fr):
+        """proof step at entry: e(i) is a row and carries the looked-up id (from `parents-exist` and the definition of lastrow)"""
+        T = Table18(E, fr.vars["df"])
+        i = z3.Int("i18")
+        E.prove("get_dsu/step/every-row-has-a-parent-row", z3.ForAll([i], z3.Implies(T.R(i), z3.And(T.R(T.e(i)), z3.Select(T.ID, T.e(i)) == T.key(i)))), "annotation")
+
+    def initial_labels(E, v, o):
+        """annotation after `dsu = np.array([id2idx[i] for i in dsu])`: the labels start as the parent rows e(i)"""
+        if "id2idx" not in v or "flag" in v:
+            return True  # the first assignment to `dsu` (the parent ids, not yet rows) / the stores inside the loop
+        T = Table18(E, o["df"])
+        d = v["dsu"]
+        i = z3.Int("i18")
+        return z3.And(d.nz() == T.n, z3.ForAll([i], z3.Implies(T.R(i), z3.Select(d.arr, i) == T.e(i))))
+
+    def inv(which):
+        def f(E, v, o):
+            T = Table18(E, o["df"])
+            d = v["dsu"]
+            L = d.arr
+            i, x = z3.Int("i18"), z3.Int("x18")
+            Li = z3.Select(L, i)
+            if which == "labels-are-rows":
+                return z3.And(d.nz() == T.n, z3.ForAll([i], z3.Implies(T.R(i), T.R(Li))))
+            if which == "label-in-own-component":
+                return z3.Implies(T.einv(comp18), z3.ForAll([i], z3.Implies(T.R(i), comp18(Li) == comp18(i))))
+            if which == "what-is-constant-along-labels-is-constant-along-edges":
+                c = z3.Const("c18", z3.ArraySort(_I, _I))
+                linv = z3.ForAll([x], z3.Implies(T.R(x), z3.Select(c, z3.Select(L, x)) == z3.Select(c, x)), patterns=[z3.Select(c, x)])
+                return z3.ForAll([c, i], z3.Implies(z3.And(T.R(i), linv), z3.Select(c, T.e(i)) == z3.Select(c, i)), patterns=[z3.Select(c, i)])
+            if which == "parentless-rows-label-themselves":
+                return z3.ForAll([i], z3.Implies(z3.And(T.R(i), T.e(i) == i), Li == i))
+            if which == "acyclic:label-is-a-proper-ancestor":
+                return z3.Implies(T.forest(), z3.ForAll([i], z3.Implies(z3.And(T.R(i), T.e(i) != i), dp18(Li) < dp18(i))))
+            if which == "no-change-so-far-in-this-pass":
+                k = to_z3(v["_k1"], "int")
+                return z3.Implies(to_z3(v["flag"], "bool"), z3.ForAll([i], z3.Implies(z3.And(i >= 0, i < k), z3.Select(L, Li) == Li)))
+            raise KeyError(which)
+
+        return f
+
+    SHARED = ["labels-are-rows", "label-in-own-component", "what-is-constant-along-labels-is-constant-along-edges",
+              "parentless-rows-label-themselves", "acyclic:label-is-a-proper-ancestor"]
+
+    def post(which):
+        def f(E, v, o):
+            T = Table18(E, o["df"])
+            r = v["result"]
+            if not isinstance(r, SArr):
+                return False
+            L = r.arr
+            i = z3.Int("i18")
+            Li = z3.Select(L, i)
+            if which == "fresh-array-of-row-numbers":
+                return z3.And(r.uid not in E.entry_uids, r.nz() == T.n, z3.ForAll([i], z3.Implies(T.R(i), T.R(Li))))
+            if which == "labels-label-themselves":
+                return z3.ForAll([i], z3.Implies(T.R(i), z3.Select(L, Li) == Li))
+            if which == "same-label-only-if-connected(label-lies-in-the-row's-component-for-every-labelling-constant-along-edges)":
+                return z3.Implies(T.einv(comp18), z3.ForAll([i], z3.Implies(T.R(i), comp18(Li) == comp18(i))))
+            if which == "connected-rows-get-the-same-label(a-row-and-its-parent-row-agree)":
+                return z3.ForAll([i], z3.Implies(T.R(i), z3.Select(L, T.e(i)) == Li))
+            if which == "parentless-rows-label-themselves":
+                return z3.ForAll([i], z3.Implies(z3.And(T.R(i), T.e(i) == i), Li == i))
+            if which == "acyclic-table:label-is-the-row-of-the-root":
+                return z3.Implies(z3.And(T.forest(), T.einv(comp18), T.roots_label_themselves(comp18)), z3.ForAll([i], z3.Implies(T.R(i), Li == comp18(i))))
+            raise KeyError(which)
+
+        return f
+
+    POSTS = ["fresh-array-of-row-numbers", "labels-label-themselves",
+             "same-label-only-if-connected(label-lies-in-the-row's-component-for-every-labelling-constant-along-edges)",
+             "connected-rows-get-the-same-label(a-row-and-its-parent-row-agree)", "parentless-rows-label-themselves",
+             "acyclic-table:label-is-the-row-of-the-root"]
+
+    R.add(f"{BASE}:get_dsu", prop="C18", setup=setup,
+          requires=[("every-parent-id-names-a-row", pre_parents)],
+          returns=lambda S, fr: SArr.fresh("int", zint(fr.vars["df"].n), name="dsu"),
+          lemmas=[edges_resolve],
+          options=dict(asserts_after={"dsu": [("labels-start-as-the-parent-rows", initial_labels)]}),
+          ensures=[(nm, post(nm)) for nm in POSTS],
+          loops={0: dict(invariant=[(nm, inv(nm)) for nm in SHARED]),
+                 1: dict(invariant=[(nm, inv(nm)) for nm in SHARED + ["no-change-so-far-in-this-pass"]])},
+          notes="holds for every table whose parent ids name rows, WITH OR WITHOUT cycles (partial correctness: termination of the fixpoint "
+                "iteration is not proved); the input frame is frozen (any store into it is a failed frame obligation)")
+
+
+_reg_5 = register
+
+
+def register(R):  # noqa: F811
+    _reg_5(R)
+    register_get_dsu(R)
